@@ -377,3 +377,20 @@ package unmarshal
 //@ func (*parserDoer).doParseProfile$1 [C05]
 //@   flag defers-first=.tamePanic
 //@   flag may-panic
+
+// Scaling a profile timestamp to nanoseconds must terminate for every value
+// (the profile parser goroutine would otherwise spin forever on one request).
+//@ func ns [C05]
+//@   modifies nothing
+//@   loop 1:
+//@     decreases 18 - i
+//@   replay:
+//@     import "time"
+//@     let t = timestamp
+//@     go: done := make(chan uint64, 1)
+//@     go: go func() { done <- ns($t) }()
+//@     go: select {
+//@     go: case <-done:
+//@     go: case <-time.After(2 * time.Second): confirm("ns does not return within 2 s for this timestamp")
+//@     go: }
+//@   end
